@@ -243,6 +243,37 @@ fn type_pick_ok(ck: &Ck, rep: &mut Report, got: NumericalType, want: NumericalTy
     false
 }
 
+/// `write_table` with a panic inside the writer turned into a violation that carries the input
+fn write_table_guarded(cols: &[MCol], n: usize, doc_major: bool, perm: Option<&[u32]>, what: &str, info: &J, rep: &mut Report) -> Option<Vec<u8>> {
+    match guarded(|| write_table(cols, n, doc_major, perm)) {
+        Ok(Ok(b)) => Some(b),
+        Ok(Err(e)) => {
+            rep.violation(format!("api-error:{what}:serialize"), json!({"error": e, "context": info}));
+            None
+        }
+        Err(p) if p.in_harness() => {
+            rep.harness_error(format!("{what}: panic in harness at {}: {}", p.location, p.message));
+            None
+        }
+        Err(p) => {
+            let ip_cols: Vec<J> = cols
+                .iter()
+                .filter_map(|c| match &c.data {
+                    ColData::Ip(r) => {
+                        let set: BTreeSet<u128> = r.iter().flatten().copied().collect();
+                        let v: Vec<String> = set.iter().take(6).chain(set.iter().rev().take(6)).map(|x| format!("{x:#x}")).collect();
+                        Some(json!({"name": c.name, "values": c.val_profile, "distinct": set.len(), "total": c.data.total(),
+                            "min": set.iter().next().map(|x| format!("{x:#x}")), "max": set.iter().last().map(|x| format!("{x:#x}")), "lowest_and_highest": v}))
+                    }
+                    _ => None,
+                })
+                .collect();
+            rep.violation(p.sig(), json!({"panic_location": p.location, "panic_message": p.message, "during": what, "ip_columns": ip_cols, "context": info}));
+            None
+        }
+    }
+}
+
 /// numeric type the writer is documented to pick for this model column
 fn model_num_type(c: &MCol) -> (NumericalType, Quirk) {
     if let Some(t) = c.forced {
@@ -370,12 +401,8 @@ fn columnar_case(case: u64, rng: &mut Rng, rep: &mut Report) {
     if case < 2 {
         rep.sample(info.clone());
     }
-    let bytes = match write_table(&cols, n, doc_major, perm.as_deref()) {
-        Ok(b) => b,
-        Err(e) => {
-            rep.violation("api-error:columnar:serialize", json!({"error": e, "context": info}));
-            return;
-        }
+    let Some(bytes) = write_table_guarded(&cols, n, doc_major, perm.as_deref(), "columnar", &info, rep) else {
+        return;
     };
     rep.count("columnar_bytes_written", bytes.len() as u64);
     let reader = match ColumnarReader::open(bytes) {
@@ -663,12 +690,10 @@ fn merge_case(case: u64, rng: &mut Rng, rep: &mut Report) {
     // write + open inputs
     let mut readers: Vec<ColumnarReader> = vec![];
     for t in inputs.iter_mut() {
-        let bytes = match write_table(&t.cols, t.n, rng.bool(), None) {
-            Ok(b) => b,
-            Err(e) => {
-                rep.violation("api-error:merge:serialize_input", json!({"error": e, "case": case}));
-                return;
-            }
+        let ctx_in = json!({"stream": "merge", "case": case, "input_rows": t.n,
+            "columns": t.cols.iter().map(|c| json!({"name": c.name, "cat": c.data.cat().name(), "values": c.val_profile, "index": c.idx_profile})).collect::<Vec<_>>()});
+        let Some(bytes) = write_table_guarded(&t.cols, t.n, rng.bool(), None, "merge-input", &ctx_in, rep) else {
+            return;
         };
         let reader = match ColumnarReader::open(bytes) {
             Ok(r) => r,
@@ -1199,6 +1224,12 @@ fn check_segment(
 }
 
 fn tantivy_case(case: u64, rng: &mut Rng, rep: &mut Report) {
+    ALLOW_IP_SPAN.with(|c| c.set(false));
+    tantivy_case_inner(case, rng, rep);
+    ALLOW_IP_SPAN.with(|c| c.set(true));
+}
+
+fn tantivy_case_inner(case: u64, rng: &mut Rng, rep: &mut Report) {
     // segments
     let big = rng.chance(if thorough() { 4 } else { 6 }, 100);
     let nseg = rng.urange(1, 4);
